@@ -49,7 +49,11 @@ def _impl_dec(n):
     try:
         r = bit_summary_to_days(n)
         assert isinstance(r, set)
-        return "ok " + _csv(sorted(D.index(d) for d in r))
+        shown = "ok " + _csv(sorted(D.index(d) for d in r))
+        # the caller owns the set it was given: whatever it does with it must not show in a later answer
+        r.discard(next(iter(r), None))
+        r.add(D[(n // 2) % 7])
+        return shown
     except Exception as e:
         return "raise " + C.exc_name(e)
 
@@ -94,6 +98,10 @@ def streams(ctx):
     ctx.run_cases(ENC, "encode-all-forms-exhaustive", enc, exhaustive=True, sample_every=397)
     ctx.run_cases(DEC, "decode-all-masks-exhaustive", list(range(-2, 301)), exhaustive=True, sample_every=97)
     ctx.run_cases(RT, "roundtrip-127-subsets", subsets, exhaustive=True, sample_every=41)
+    # every mask again, after the sets returned the first time have been modified by their caller; and the encodings again, in another
+    # order, after everything above (an answer must not depend on what was asked before)
+    ctx.run_cases(DEC, "decode-all-masks-again-after-the-caller-changed-the-returned-sets", list(range(300, -3, -1)), exhaustive=True, sample_every=97)
+    ctx.run_cases(ENC, "encode-all-forms-again-in-reverse-order", list(reversed(enc)), exhaustive=True, sample_every=397)
 
 
 def search(ctx, broken):
